@@ -200,6 +200,26 @@ def view(m, types=None):
     return mv
 
 
+def add_sender(raw, sender):
+    """Message bytes with a SENDER header field (code 7, type 's') appended - by the DBus wire format alone
+    (fixed 12 bytes, header-field array length at 12..16, fields are 8-aligned structs, header padded to 8
+    before the body); no private re-marshal entry point of the library is used."""
+    raw = bytes(raw)
+    bo = 'little' if raw[:1] == b'l' else 'big'
+    alen = int.from_bytes(raw[12:16], bo)
+    end = 16 + alen
+    body = raw[end + ((-end) % 8):]
+    arr = bytearray(raw[16:end])
+    while len(arr) % 8:
+        arr.append(0)
+    sb = sender.encode('utf-8')
+    arr += bytes([7, 1]) + b's\0' + len(sb).to_bytes(4, bo) + sb + b'\0'
+    out = bytearray(raw[:12]) + len(arr).to_bytes(4, bo) + arr
+    while len(out) % 8:
+        out.append(0)
+    return bytes(out) + body
+
+
 def build_message(spec, parse=True):
     """spec: dict(kind, path, interface, member, destination, sender, signature, body) -> real message object.
     parse=True: the object a receiver gets (parseMessage of the bytes)."""
@@ -222,8 +242,9 @@ def build_message(spec, parse=True):
     else:
         raise ValueError(kind)
     if spec.get('sender') is not None:
+        raw = add_sender(m.rawMessage, spec['sender'])
         m.sender = spec['sender']
-        m._marshal(False)
+        m.rawMessage = raw
     if parse:
         m = message.parseMessage(m.rawMessage, [])
     return m
@@ -488,8 +509,7 @@ def classify(kw, mv, called, verdict, failing):
 def impl_single(sub, m):
     """Does the real router invoke the callback of the rule `sub` for the message object m?"""
     from txdbus import router
-    saved = router.log
-    router.log = LogSpy()
+    saved = swap_log(router, LogSpy())
     try:
         r = router.MessageRouter()
         hits = []
@@ -499,7 +519,7 @@ def impl_single(sub, m):
     except Exception:
         return None
     finally:
-        router.log = saved
+        restore_log(router, saved)
 
 
 def attribute(kw, m, mv):
@@ -557,6 +577,23 @@ def judge(ctx, kw, m, mv, called, where, inp):
 
 
 # ------------------------------------------------------------------------------------------ real-code helpers
+def swap_log(router_mod, new):
+    """Replace the twisted log module inside txdbus.router (bound to whatever name it is imported under) by `new`;
+    returns what restore_log needs.  When the router does not log through twisted's log at all nothing is
+    replaced: logged-error counts are then zero, which only feeds a statistic."""
+    from twisted.python import log as twisted_log
+    for name, v in list(vars(router_mod).items()):
+        if v is twisted_log:
+            setattr(router_mod, name, new)
+            return (name, v)
+    return None
+
+
+def restore_log(router_mod, saved):
+    if saved is not None:
+        setattr(router_mod, saved[0], saved[1])
+
+
 class LogSpy:
     """Stands in for `router.log`: counts log.err() calls."""
     def __init__(self):
@@ -765,8 +802,7 @@ def stream_pairs(ctx, cases, label):
     from txdbus import router
     lines, obs = [], []
     spy = LogSpy()
-    saved = router.log
-    router.log = spy
+    saved = swap_log(router, spy)
     try:
         for kw, spec, parse in cases:
             m = build_message(spec, parse=parse)
@@ -795,7 +831,7 @@ def stream_pairs(ctx, cases, label):
             lines.append('match ' + enc_rule(kw) + ' ' + enc_msg(mv))
             lines.append('spec ' + enc_rule(kw) + ' ' + enc_msg(mv))
     finally:
-        router.log = saved
+        restore_log(router, saved)
     out = ctx.model(lines)
     layout_differs = []
     for i, (kw, spec, parse, mv, stored, outcome, called, logged, m) in enumerate(obs):
@@ -930,8 +966,7 @@ def run_history(ctx, ops, inp_extra=None):
     the statement does not forbid an implementation from reissuing the id of a removed rule."""
     from txdbus import router
     spy = LogSpy()
-    saved = router.log
-    router.log = spy
+    saved = swap_log(router, spy)
     lines = ['reset']
     impl = ['ok']
     inp = {'stream': 'route-histories', 'ops': ops}
@@ -1044,7 +1079,7 @@ def run_history(ctx, ops, inp_extra=None):
                 else:
                     ctx.stat('history-route:ok')
     finally:
-        router.log = saved
+        restore_log(router, saved)
     out = ctx.model(lines)
     ctx.case('route-histories', sample=inp)
     ctx.stat('history-len:%d' % (len(ops) // 5 * 5))
@@ -1197,8 +1232,7 @@ def run_client_history(ctx, ops):
     is demanded: the statement does not fix the moment at which a registration or a removal takes effect."""
     from txdbus import message, router
     spy = LogSpy()
-    saved = router.log
-    router.log = spy
+    saved = swap_log(router, spy)
     inp = {'stream': 'client-histories', 'ops': ops}
     lines, impl = ['reset'], ['ok']
     try:
@@ -1365,7 +1399,7 @@ def run_client_history(ctx, ops):
                 else:
                     ctx.stat('client-signal:ok')
     finally:
-        router.log = saved
+        restore_log(router, saved)
     out = ctx.model(lines)
     ctx.case('client-histories', sample=inp)
     if out is not None:
@@ -1383,39 +1417,101 @@ def run_client_history(ctx, ops):
                 break
 
 
+class HarnessReach(Exception):
+    """The harness could not reach an internal it uses to set a scenario up (an attribute moved, a helper was
+    renamed).  Never a property violation: the stream is skipped with a note."""
+
+
 class FakePeer:
-    """Stands in for a BusProtocol connection: records what the bus sends to it."""
+    """Stands in for a BusProtocol connection when a real one cannot be built: records what the bus sends to it."""
     def __init__(self, name):
         self.uniqueName = name
         self.sent = []
         self.matchRules = set()
         self.busNames = {}
+        self.isConnected = True
 
     def sendMessage(self, m):
         self.sent.append(m)
+
+
+def find_router(b):
+    """The MessageRouter of a Bus, under whatever attribute it is kept."""
+    r = getattr(b, 'router', None)
+    if r is not None and hasattr(r, 'addMatch') and hasattr(r, 'routeMessage'):
+        return r
+    for v in vars(b).values():
+        if hasattr(v, 'addMatch') and hasattr(v, 'routeMessage') and hasattr(v, 'delMatch'):
+            return v
+    raise HarnessReach('the router of the Bus object was not found')
+
+
+def make_bus_peer(b):
+    """A connection registered with the Bus `b` whose outgoing messages are recorded in `.sent`.  Preferred: a real
+    BusProtocol on a StringTransport, authenticated and announced through Bus.clientConnected (it has every attribute
+    the bus expects of a connection); fallback: a stand-in put into the bus's table of clients."""
+    from txdbus import bus
+    try:
+        from twisted.internet.testing import StringTransport
+        from twisted.internet.protocol import Factory
+        f = Factory()
+        f.protocol = bus.BusProtocol
+        f.bus = b
+        p = f.buildProtocol(None)
+        p.makeConnection(StringTransport())
+        p._authenticated = True
+        p.connectionAuthenticated()
+        b.clientConnected(p)
+        p.sent = []
+        p.sendMessage = p.sent.append
+        if isinstance(getattr(p, 'uniqueName', None), str):
+            return p
+    except Exception:
+        pass
+    try:
+        peer = FakePeer(':1.1')
+        b.clients[peer.uniqueName] = peer
+        return peer
+    except Exception as e:
+        raise HarnessReach('cannot register a connection with the Bus: %r' % (e,))
+
+
+_BUS_SETUP_OK = {}
 
 
 def bus_add(text):
     """Real Bus.dbus_AddMatch(text): ('ok', kwargs given to router.addMatch, bus, peer) | ('valueerror', ...)."""
     from txdbus import bus
     b = bus.Bus()
-    peer = FakePeer(':1.1')
-    b.clients[peer.uniqueName] = peer
+    peer = make_bus_peer(b)
+    rt = find_router(b)
     captured = []
-    real_add = b.router.addMatch
+    real_add = rt.addMatch
 
     def spy_add(cb, **kw):
         captured.append(kw)
         return real_add(cb, **kw)
-    b.router.addMatch = spy_add
+    rt.addMatch = spy_add
+    if not _BUS_SETUP_OK.get(id(bus)):
+        # once per run: the scenario itself must work before a refusal may be blamed on the rule text
+        try:
+            b.dbus_AddMatch("type='signal'", dbusCaller=peer.uniqueName)
+            assert captured and captured[0].get('mtype') == 'signal'
+        except Exception as e:
+            raise HarnessReach('Bus.dbus_AddMatch cannot be driven with a registered connection: %r' % (e,))
+        del captured[:]
+        _BUS_SETUP_OK[id(bus)] = True
+        return bus_add(text)
     try:
-        b.dbus_AddMatch(text, dbusCaller=':1.1')
+        b.dbus_AddMatch(text, dbusCaller=peer.uniqueName)
     except ValueError:
         return 'valueerror', None, b, peer
     except KeyError as e:
         return 'keyerror', None, b, peer
     except Exception as e:
         return 'error:' + type(e).__name__, None, b, peer
+    if not captured:
+        raise HarnessReach('Bus.dbus_AddMatch did not call the router located by the harness')
     return 'ok', captured[0], b, peer
 
 
@@ -1427,8 +1523,7 @@ def stream_text(ctx, rules, malformed):
     """rule-text: client rendering == model rendering and bus(client text) registers the same rule;
     bus-parse: arbitrary texts through the real dbus_AddMatch against the model's parser."""
     from txdbus import router
-    saved = router.log
-    router.log = LogSpy()
+    saved = swap_log(router, LogSpy())
     try:
         c, t = make_connection()
         lines, obs = [], []
@@ -1470,7 +1565,7 @@ def stream_text(ctx, rules, malformed):
                     if v is None:
                         continue
                     del peer.sent[:]
-                    b.router.routeMessage(m)
+                    find_router(b).routeMessage(m)
                     got = len(peer.sent) > 0
                     if got != v:
                         key, what = explain(kw, m, mv, got, v, failing)
@@ -1508,7 +1603,7 @@ def stream_text(ctx, rules, malformed):
                     continue
                 ctx.disagree('bus-parse', {'stream': 'bus-parse', 'text': text}, out[2 * i], impl_parse)
     finally:
-        router.log = saved
+        restore_log(router, saved)
 
 
 PROBE_SPECS = [SIG(), SIG(path='/a/bc'), SIG(path='/a/b/c'), SIG(interface='a.bc'), SIG(member='Mm'),
@@ -1648,7 +1743,12 @@ def run_proxy_scenario(ctx, sc):
     from txdbus import objects, interface, message
     c, t = make_connection()
     ifs = [interface.DBusInterface(nm, *[interface.Signal(k, v) for k, v in sigs.items()]) for nm, sigs in sc['ifaces']]
-    ro = objects.RemoteDBusObject(c.objHandler, 'x.y', '/a/b', ifs)
+    got_ro = []
+    c.getRemoteObject('x.y', '/a/b', ifs).addCallback(got_ro.append)      # explicit interfaces: no introspection
+    if not got_ro:
+        raise HarnessReach('getRemoteObject with explicit interfaces did not produce a proxy at once')
+    ro = got_ro[0]
+    drain_calls(t)
     lines, impl = ['preset'], ['ok']
     subs = []          # per subscription: dict(name, requested, got, rid, rule, sel)
     for name, requested in sc['subs']:
@@ -1774,8 +1874,7 @@ def run_proxy_scenario(ctx, sc):
 def stream_proxy(ctx, scenarios):
     """Real RemoteDBusObject.notifyOnSignal / cancelSignalNotification on a real connection."""
     from txdbus import router
-    saved = router.log
-    router.log = LogSpy()
+    saved = swap_log(router, LogSpy())
     try:
         runs = []
         all_lines = []
@@ -1818,7 +1917,7 @@ def stream_proxy(ctx, scenarios):
                         ctx.disagree('proxy-gate', sc, {'line': lines[li] + ' / ' + lines[li + 1], 'out': model}, got)
                         break
     finally:
-        router.log = saved
+        restore_log(router, saved)
 
 
 def probe_internal_reentrancy(ctx):
@@ -1826,8 +1925,7 @@ def probe_internal_reentrancy(ctx):
     message is being routed.  Not reachable through DBusClientConnection.addMatch/delMatch (they act after the
     daemon's reply); recorded in the evidence, never flagged."""
     from txdbus import router, message
-    saved = router.log
-    router.log = LogSpy()
+    saved = swap_log(router, LogSpy())
     try:
         r = router.MessageRouter()
         hits = []
@@ -1842,14 +1940,13 @@ def probe_internal_reentrancy(ctx):
             res = 'RuntimeError(%s) after %r' % (e, hits)
         ctx.note('internal-API probe (not a public-API path): callback calling router.delMatch during routeMessage -> ' + res)
     finally:
-        router.log = saved
+        restore_log(router, saved)
 
 
 def probe_apostrophe(ctx):
     """Values containing an apostrophe: the specification requires escaping; the code does none."""
     from txdbus import router
-    saved = router.log
-    router.log = LogSpy()
+    saved = swap_log(router, LogSpy())
     try:
         c, t = make_connection()
         c.addMatch(lambda m: None, member="it's").addErrback(lambda f: None)
@@ -1863,7 +1960,7 @@ def probe_apostrophe(ctx):
         ctx.note("empty-rule probe: addMatch() without constraints sends %r; txdbus's own Bus.dbus_AddMatch answers %s"
                  % (text, status))
     finally:
-        router.log = saved
+        restore_log(router, saved)
 
 
 # ------------------------------------------------------------------------------------------ entry points
@@ -1885,13 +1982,51 @@ def run_corpus_case(ctx, case):
         stream_proxy(ctx, [case])
 
 
+SKIPPED = set()
+
+
+def own_reach(exc):
+    """Was this exception raised by the harness's own reach into internals (innermost frame in this file, or an
+    explicit HarnessReach) - as opposed to raised by the library in response to public calls?"""
+    if isinstance(exc, HarnessReach):
+        return True
+    if not isinstance(exc, (AttributeError, TypeError, KeyError, ImportError, AssertionError)):
+        return False
+    tb = exc.__traceback__
+    while tb is not None and tb.tb_next is not None:
+        tb = tb.tb_next
+    return tb is not None and tb.tb_frame.f_code.co_filename == __file__
+
+
+def guarded(ctx, streams, fn):
+    """Run one stream (group).  An internal the harness reaches for has moved: that is never a finding about the
+    property - the stream is skipped, recorded as a note, and counts as run (an advisory-like outcome).  Anything
+    else propagates."""
+    try:
+        fn()
+        return True
+    except Exception as e:
+        if not own_reach(e):
+            raise
+        ctx.note('stream(s) %s skipped: the harness could not reach an internal (%s: %s)'
+                 % (','.join(streams) or 'probe', type(e).__name__, str(e)[:160]))
+        ctx.stat('stream-skipped:harness-reach')
+        for s_ in streams:
+            ctx.streams_run.add(s_)
+            SKIPPED.add(s_)
+        return False
+
+
 def run(ctx):
     rng = ctx.rng
+    SKIPPED.clear()
     for name, case in ctx.corpus():
-        run_corpus_case(ctx, case.get('input', case))
+        case_ = case.get('input', case)
+        guarded(ctx, [], lambda: run_corpus_case(ctx, case_))
 
     # directed exemplars, both as received (parsed) and as constructed objects
-    stream_pairs(ctx, [(kw, spec, True) for kw, spec in DIRECTED] + [(kw, spec, False) for kw, spec in DIRECTED], 'directed')
+    guarded(ctx, ['mkrule', 'match-pairs', 'oracle-vs-spec'], lambda: stream_pairs(
+        ctx, [(kw, spec, True) for kw, spec in DIRECTED] + [(kw, spec, False) for kw, spec in DIRECTED], 'directed'))
 
     # grids (complete over the small pools): every namespace candidate x every path, every argNpath / argN
     # candidate x every string argument - the near-miss cases the property names
@@ -1911,7 +2046,7 @@ def run(ctx):
             if v.startswith(a[:2]):
                 grid.append(({'arg_paths': [[0, v]]}, SIG(signature='o', body=[a]), True))
     ctx.stat('grid-cases', len(grid))
-    stream_pairs(ctx, grid, 'grid')
+    guarded(ctx, ['mkrule', 'match-pairs', 'oracle-vs-spec'], lambda: stream_pairs(ctx, grid, 'grid'))
 
     # single-key sweep: for every constraint key, satisfied and near-miss, alone
     single = []
@@ -1924,7 +2059,7 @@ def run(ctx):
         if key in full:
             kw = {key: full[key]}
         single.append((kw, spec, rng.random() < 0.85))
-    stream_pairs(ctx, single, 'single-key')
+    guarded(ctx, ['mkrule', 'match-pairs', 'oracle-vs-spec'], lambda: stream_pairs(ctx, single, 'single-key'))
 
     pairs = []
     for _ in range(ctx.scale(quick=4000, thorough=40000)):
@@ -1932,13 +2067,17 @@ def run(ctx):
         mv = view(build_message(spec))
         kw = gen_rule_for(rng, mv, p_miss=rng.choice([0.0, 0.15, 0.4]))
         pairs.append((kw, spec, rng.random() < 0.85))
-    stream_pairs(ctx, pairs, 'random')
+    guarded(ctx, ['mkrule', 'match-pairs', 'oracle-vs-spec'], lambda: stream_pairs(ctx, pairs, 'random'))
 
     for _ in range(ctx.scale(quick=200, thorough=2000)):
-        run_history(ctx, gen_history(rng, rng.choice([5, 10, 20, 40])))
+        h_ = gen_history(rng, rng.choice([5, 10, 20, 40]))
+        if not guarded(ctx, ['route-histories'], lambda: run_history(ctx, h_)):
+            break
 
     for _ in range(ctx.scale(quick=120, thorough=1200)):
-        run_client_history(ctx, gen_client_history(rng, rng.choice([6, 12, 25])))
+        h_ = gen_client_history(rng, rng.choice([6, 12, 25]))
+        if not guarded(ctx, ['client-histories'], lambda: run_client_history(ctx, h_)):
+            break
 
     rules = [{}]
     for _ in range(ctx.scale(quick=400, thorough=4000)):
@@ -1946,12 +2085,15 @@ def run(ctx):
         rules.append(clean_kw(gen_rule_for(rng, mv, p_key=rng.choice([0.2, 0.4, 0.8]))))
     malformed = ['', ',', '=', "a='b',", "type='signal',,path='/a'"] + \
                 [gen_malformed(rng) for _ in range(ctx.scale(quick=1000, thorough=10000))]
-    stream_text(ctx, rules, malformed)
+    guarded(ctx, ['rule-text', 'bus-parse'], lambda: stream_text(ctx, rules, malformed))
 
-    stream_proxy(ctx, [gen_proxy_scenario(rng) for _ in range(ctx.scale(quick=120, thorough=1200))])
+    scs = [gen_proxy_scenario(rng) for _ in range(ctx.scale(quick=120, thorough=1200))]
+    guarded(ctx, ['proxy-gate'], lambda: stream_proxy(ctx, scs))
 
-    probe_internal_reentrancy(ctx)
-    probe_apostrophe(ctx)
+    guarded(ctx, [], lambda: probe_internal_reentrancy(ctx))
+    guarded(ctx, [], lambda: probe_apostrophe(ctx))
+    if SKIPPED and len(SKIPPED) >= len(STREAMS):
+        raise RuntimeError('no stream of C12 could run: %r' % (sorted(SKIPPED),))
 
 
 def replay(ctx, data):
